@@ -1804,6 +1804,7 @@ _read_macro_dispatch: Mapping[str, RawLispReaderFn] = {
 }
 
 
+@_with_loc
 def _read_reader_macro(ctx: ReaderContext) -> LispReaderForm:
     """Return a data structure evaluated as a reader macro from the input stream."""
     start = ctx.reader.advance()
